@@ -51,8 +51,25 @@ def build(tier, rng):
         for start, count, st in tuples(shape, isrec, strides, reduced=(nd == 3)):
             reqs.append((v, start, count, st))
     rng.shuffle(reqs)
+
+    def plausible(r):
+        """sampling stratum only (never an oracle): requests that look acceptable and non-empty -- few among the >100000
+        tuples, and the ones that must change exactly the addressed elements; the quick tier keeps all of them"""
+        v, start, count, st = r
+        shape = shapes[v]
+        s = st or [1] * len(shape)
+        if not (all(x >= 0 for x in start) and all(x > 0 for x in count) and all(x > 0 for x in s)):
+            return False
+        for d in range(len(shape)):
+            lim = MAXREC if (VARS[v][1][0] == "t" and d == 0) else shape[d]
+            if start[d] + (count[d] - 1) * s[d] >= lim:
+                return False
+        return True
     if tier == "quick":
-        reqs = reqs[:9000]
+        good = [r for r in reqs if plausible(r)]
+        rest = [r for r in reqs if not plausible(r)]
+        reqs = good + good + rest[:9000 - 2 * len(good)]      # (each plausible one twice: put and get are drawn at random)
+        rng.shuffle(reqs)
     execs = []
     tok = [1]
 
@@ -100,6 +117,43 @@ def build(tier, rng):
                 steps.append({"op": "wait", "mode": "coll", "special": "ALL", "obs": OBS})
         execs.append({"x": "e%d" % (i // chunk), "steps": steps,
                       "env": {"PNETCDF_RELAX_COORD_BOUND": "1"}})
+    # the same requests on two processes, collective, safe mode off: rank 0 takes part with a zero-length request, rank 1
+    # issues the (possibly rejected) request.  A rejected rank must take part with NOTHING: its request may not be executed.
+    reqs2 = reqs[:1500] if tier == "quick" else reqs
+    for i in range(0, len(reqs2), chunk):
+        steps = fixture()
+        for (v, start, count, st) in reqs2[i:i + chunk]:
+            rw = rng.choice(["put", "put", "get"])
+            xt = VARS[v][2]
+            it = datagen.NATIVE[xt]
+            nd = len(start)
+            n = prod([max(c, 0) for c in count])
+            form = rng.choice(["vara", "vara", "varn"]) if st is None else rng.choice(["vars", "varm"])
+            zero = {"op": rw, "v": v, "itype": it, "form": form, "mode": "coll", "obs": OBS}
+            mine = {}
+            if form == "varn":
+                zero.update(starts=[[0] * nd], counts=[[0] * nd])
+                mine.update(starts=[start], counts=[count])
+            else:
+                zero.update(start=[0] * nd, count=[0] * nd)
+                mine.update(start=start, count=count)
+                if st is not None:
+                    zero["stride"] = [1] * nd
+                    mine["stride"] = st
+            if rw == "put":
+                tok[0] = tok[0] % 80 + 1
+                zero.update(vals=[], padbuf=4)
+                mine["vals"] = [tok[0] + (k % 9) for k in range(n)]
+                if n == 0:
+                    mine["padbuf"] = 4
+                else:
+                    mine["padbuf"] = None
+            else:
+                zero["n"] = 0
+                mine["n"] = n
+            zero["pr"] = {"1": mine}
+            steps.append(zero)
+        execs.append({"x": "p%d" % (i // chunk), "np": 2, "steps": steps, "env": {"PNETCDF_RELAX_COORD_BOUND": "1"}})
     return execs, vt, len(reqs)
 
 
@@ -107,15 +161,36 @@ def run(tier, seed):
     rng = random.Random(seed)
     mc = datacheck.design_check(tier)
     execs, vt, nreq = build(tier, rng)
-    r = datacheck.run(PID, tier, seed, execs, mc, header=lambda evs: {"vars": vt})
+    import c01
+    e1 = [e for e in execs if e.get("np", 1) == 1]
+    e2 = [e for e in execs if e.get("np", 1) == 2]
+    r = datacheck.run(PID, tier, seed, e1, mc, header=lambda evs: {"vars": vt})
+    r2 = datacheck.run(PID, tier, seed, e2, mc, header=lambda evs: {"vars": vt}, to_events=c01.serial)
+    r["violations"] += r2["violations"]
+    for k in ("traces_validated_against_impl", "evaluations", "distinct_nontrivial", "trace_states", "rejected_first_pass"):
+        r["coverage"][k] += r2["coverage"][k]
     r["coverage"].update({"rule": "every (start,count[,stride]) with start,count in -1..dim+1 (record dimension: start -1..3, count -1..2) and "
                                   "stride in {none,1,2,0,-1,dim} for shapes [3], [2][3], [t][2] (two records present) and [2][2][2] (reduced "
                                   "ranges), as put or get, blocking (vara/vars/varm/varn) or nonblocking (+wait_all); quick samples 9000 of "
-                                  "them, thorough runs all with per-dimension stride variants; after each request the whole file is decoded",
+                                  "them, thorough runs all with per-dimension stride variants; after each request the whole file is decoded; "
+                                  "the same requests again (quick: 1500 of them) as blocking collective calls on two processes where rank 0 "
+                                  "takes part with a zero-length request and rank 1 issues the request",
                           "requests": nreq, "exhaustive": tier == "thorough"})
     return r
 
 
 def replay(path):
     vt = datagen.vartab(VARS, DIMS, MAXREC)
-    return datacheck.replay(PID, path, header=lambda evs: {"vars": vt})
+    r = json.load(open(path))
+    if r["exec"].get("np", 1) == 1:
+        return datacheck.replay(PID, path, header=lambda evs: {"vars": vt})
+    import c01
+    bld = vlib.build("dbg")
+    res, acc, rej, _ = vlib.run_validate(bld, [r["exec"]], datacheck.MODULE, datacheck.CFG_DEV, np=2, par=1,
+                                         header=lambda evs: {"vars": vt}, to_events=c01.serial)
+    if rej:
+        print(rej[0][2][:800])
+        print("VIOLATION property=%s replay=%s" % (PID, path))
+        return 1
+    print("accepted")
+    return 0
